@@ -135,6 +135,12 @@ func drawProgram(t *rapid.T) *program {
 	// a second package directory that is not processed
 	pr.files["other/other.go"] = "package other\n\nfunc   Untouched( ) {}\n"
 	pr.files["p/notes.txt"] = "not a go file\n"
+	// files whose names are close to the generated file's: they are the user's as well
+	for _, n := range []string{"derived.gen.go.old", "derived.gen.go.bak", "derived.gen.go~", ".derived.gen.go.swp", "derived.gen.go.orig"} {
+		if rapid.IntRange(0, 2).Draw(t, "nearname") == 0 {
+			pr.files["p/"+n] = "the user's own file " + n + "\n"
+		}
+	}
 	pr.files["other/gram.y"] = "%% a grammar that some generator turned into a .go file\n"
 	// clash analysis
 	byName := map[string]map[string]bool{}
